@@ -233,6 +233,10 @@ def power_arrays(P, k0):
             shp = spec.get('shape', 'rand')
             if k in spec.get('zero_cells', []):
                 shp = 'zero'
+            if c == 1 and k in spec.get('zero_pin_cells', []):
+                # pins unpowered over this stretch (plenum, withdrawn
+                # absorber), coolant and duct heating continue
+                shp = 'zero'
             arr[k] = _cell_coeffs(rng, cnt[c], order, mean, shp)
         out[names[c]] = arr
     # optional relabelling (used by the symmetry checks): element i of the
